@@ -253,7 +253,10 @@ _EXPORT = {}
 def export_results(repo, tier="quick"):
     key = (repo.root, tier)
     if key not in _EXPORT:
-        jobs = [sh.t for sh in export_shapes()]
+        shapes = export_shapes()
+        if tier == "thorough":
+            shapes = proc.in_contexts(shapes)
+        jobs = [sh.t for sh in shapes]
         first = _export_job(jobs[0])          # warms the per-process tables before the pool forks
         _EXPORT[key] = first + [r for rs in parallel_map(_export_job, jobs[1:]) for r in rs]
     return _EXPORT[key]
@@ -657,7 +660,10 @@ _HR = {}
 def hr_results(repo, tier="quick"):
     key = (repo.root, tier)
     if key not in _HR:
-        shapes = [sh.t for sh in export_shapes()]
+        shapes = export_shapes()
+        if tier == "thorough":
+            shapes = proc.in_contexts(shapes)
+        shapes = [sh.t for sh in shapes]
         first = _hr_job(shapes[0])
         _HR[key] = [first] + parallel_map(_hr_job, shapes[1:])
     return _HR[key]
